@@ -67,8 +67,7 @@ def judge_trees(recs, wd, name, shards=8):
 def sample_states(name, consts, wd, run, keep):
     gen = ST.generate(name, consts, wd)
     run.add_model(name, gen, {k: (sorted(v) if isinstance(v, set) else v) for k, v in consts.items()})
-    calls_at, states = explore.parse_transitions(gen["json"])
-    del gen
+    calls_at = states = gen.pop("index")
     _, confirmed, st = explore.explore(consts, ST.base_state(consts), calls_at, states, keep_records=False)
     keys = sorted(confirmed, key=lambda k: P.h(k))
     chosen = [k for k in keys if len(confirmed[k]) >= 1][:keep]
